@@ -8,7 +8,7 @@ import numpy as np
 import torch
 
 from ..core import workload
-from ..core.driver import EventLog, new_outcome, violation
+from ..core.driver import EventLog, new_outcome, tdigest, violation
 from ..core.rng import SimRng
 from ..ref import refmath as rm
 from . import fitsim
@@ -196,6 +196,7 @@ def run_population_values(plan, out, log):
                 lp.append(np.abs(pop["log_g"].reshape(-1)[0] - np.concatenate([[0.0], pop["deltas"]])).max())
             if not all(np.isfinite(v).all() for v in pop.values()) or any(x > 6.5 for x in lp) or any(np.abs(v).max() > 12 for k_, v in pop.items() if k_ == "log_v0"):
                 C["skip.population_values_beyond_float32_conditioning"] += 1
+                log.add("jump-skipped", si, var, j, tdigest(s[var]))
                 break
             try:
                 geo = ref.geometry(pop)
@@ -205,6 +206,7 @@ def run_population_values(plan, out, log):
                 C["abort.geometry:" + type(e).__name__] += 1
                 break
             gd = geo["g_metric"] * geo["direction"]
+            log.add("jump", si, var, j, tdigest(s[var]), tdigest(s["mixing_matrix"]), tdigest(s["space_shifts"]))
             C["probe.orthogonality_checked"] += 1
             C["probe.orthogonality_after_tail_proposal"] += 1
             C[f"probe.kind.{info['family']}"] += 1
